@@ -83,6 +83,9 @@ CLAIMS = {
     "C05": ("proof", "MIR edge-dominance and provenance rules over the three functions that implement the hold-back discipline (Kahn's algorithm in ChangeQueue::pop_topo_sorted_ready, Automerge::missing_deps_from, ReadDoc::get_missing_deps) and who-may-call BatchApply::push",
             "Finite obligation set, all discharged on every run: missing-dependency counters are incremented only under change_graph.has_change(dep)==false for deps of the change and decremented only inside the release loop; a change is released only on the true edge of `count == 0`; a hash is reported missing only when neither applied nor held and held changes' deps are followed; the search is seeded with queue and heads; only released changes reach BatchApply.",
             "Decides the gating discipline (a necessary condition of 'held back until ready' and of 'reports exactly'), not order-independence of the final state (C01) nor the reported set as a value. Trusted: rustc MIR, the driver, rule code.", "DESIGN.md §9.7"),
+    "C29": ("proof", "MIR provenance and edge-dominance rules over the scope plumbing of transactions: every clock argument passed by TransactionInner / BatchInsertion derives from self.scope only; TransactionInner.scope is the scope of its TransactionArgs; transaction_args sets Some(isolation clock) exactly on the isolation arm; plus the dependency rules of C04 and the scoped-read rules of C07 re-run",
+            "Finite obligation set, all discharged on every run: an edit inside an isolated transaction never looks the document up with a literal None or a foreign clock, the scope is the one the transaction was opened with, committed changes depend only on the chosen heads and the isolated chain, and reads with heads or under an open transaction go through the scoping helpers.",
+            "Decides the scope plumbing (a necessary condition of 'reads show the state at those heads' and of 'changes depend only on those heads'), not the value the scoped queries return nor the state after integrate. Trusted: rustc MIR, the driver, rule code.", "DESIGN.md §9.8"),
     "C03": ("other", "the error-after-mutation analysis of C06 restricted to the editing calls C03 lists, plus agreement of the op set's Action->ObjType table with the make-actions the encoder writes",
             "For put, put_object, insert, insert_object, delete, increment, splice, splice_text, mark, unmark, split_block, join_block: every (mutation, later error) pair in the functions they reach is discharged, reviewed or a known finding; and every object kind put_object can create is one the op set registers.",
             "Decides only the last sentence of C03 (an invalid call changes nothing) and the object-registration clause; the sequential effect itself is runtime-valued. Known finding: ObjType::Table objects are never registered (put_object returns an unusable id).", "DESIGN.md §3 C03"),
